@@ -492,7 +492,10 @@ pub fn generate(group: &str, r: &mut Rng, n: usize) -> Vec<Value> {
                 out.push(ev("pvalidate", format!("d-pvalidate-{k}"), json!({"pinst": p})));
             }
         }
-        other => panic!("unknown generator group {other}"),
+        other => match crate::gen_text::generate(other, r, n) {
+            Some(v) => out.extend(v),
+            None => panic!("unknown generator group {other}"),
+        },
     }
     out
 }
